@@ -26,6 +26,8 @@ class reducing_adapter {
     m_cache.resize(cache_size);
   }
 
+  reducing_adapter(const self_type &) = delete;
+
   ~reducing_adapter() { m_container.comm().barrier(); }
 
   void async_reduce(const key_type &key, const mapped_type &value) {
